@@ -119,6 +119,11 @@ def run(ctx):
             idx[("prec-cli-lang", c, key)] = P.add(("prec-cli-lang", c, key), proj, c, over, "yaml-hyphen", post=[opt, str(cli_v)])
     # language override applies to its language only
     idx[("lang-override",)] = P.add(("lang-override",), proj, "nesting", merged(BASE, {"nesting": {"max_nesting_depth": 6, "python": {"max_nesting_depth": 2}}}), "yaml-hyphen")
+    # a language section that sets only one threshold leaves the other one to the top-level value
+    for k in (carriers if not ctx.quick else ["yaml-hyphen", "json-underscore", "pyproject-hyphen", "opt-yaml"]):
+        idx[("partial-lang", "ref", k)] = P.add(("partial-lang", "ref", k), proj, "srp", merged(BASE, {"srp": {"max_methods": 3}}), k)
+        for lang in ("python", "typescript", "rust"):
+            idx[("partial-lang", lang, k)] = P.add(("partial-lang", lang, k), proj, "srp", merged(BASE, {"srp": {"max_methods": 3, lang: {"max_loc": 100000}}}), k)
     # ---- top-level ignore in every carrier ---------------------------------------------------------------------------
     for k in carriers:
         for c in ("nesting", "magic-numbers", "srp"):
@@ -290,6 +295,15 @@ def run(ctx):
     if got != want_py | want_other:
         ctx.discrepancy("language-override", "nesting.python.max_nesting_depth=2 with top-level 6: got %d violations, expected python judged at 2 and others at 6 (%d)" % (
             len(got or ()), len(want_py | want_other)), rep(i), P.jobs[i][0])
+    for key, i in idx.items():
+        if key[0] != "partial-lang" or key[1] == "ref":
+            continue
+        _, lang, k = key
+        ctx.count("language_override_cases")
+        ctx.nontrivial(["partial-lang", lang, k])
+        if not same(R[i], res(("partial-lang", "ref", k))):
+            ctx.discrepancy("partial-language-override-drops-top-level:%s" % lang, "srp.max_methods=3 with srp.%s.max_loc set (via %s): files of that language are no longer judged with max_methods 3 (%s vs %s violations)" % (
+                lang, k, None if R[i]["v"] is None else len(R[i]["v"]), len(res(("partial-lang", "ref", k))["v"] or [])), rep(i), P.jobs[i][0])
     # top-level ignore
     for key, i in idx.items():
         if key[0] != "ignore":
